@@ -93,6 +93,7 @@ class Engine:
     def decide(self, c):
         if not self.active:
             raise Unsupported('symbolic branch outside an exploration')
+        self._h = c.hash()          # structural hash of the condition as built (simplification may reorder arguments)
         c = z3.simplify(c)
         if z3.is_true(c):
             return True
@@ -113,13 +114,13 @@ class Engine:
             raise Unsupported('decision budget exceeded on one path')
         if i < len(self.prefix):
             w = self.prefix[i]
-            if i < len(self.prefix_hash) and self.prefix_hash[i] != c.hash():
+            if i < len(self.prefix_hash) and self.prefix_hash[i] != self._h:
                 # the same decision prefix must meet the same conditions: otherwise the code under test (or the harness) keeps state
                 # across executions and the path tree is not well defined
                 raise Unsupported('re-execution of a decision prefix met a different condition at decision %d (state kept across calls?)' % i)
             self.solver.add(c if w else z3.Not(c))
             self.trace.append(w)
-            self.trace_hash.append(c.hash())
+            self.trace_hash.append(self._h)
             self.both.append(False)
             return w
         known = None
@@ -153,7 +154,7 @@ class Engine:
         self.solver.add(c if w else z3.Not(c))
         self.model = mt if w else mf
         self.trace.append(w)
-        self.trace_hash.append(c.hash())
+        self.trace_hash.append(self._h)
         self.both.append(t and f)
         return w
 
@@ -353,6 +354,8 @@ class SymStr(str):
     def __getattribute__(self, name):
         if name in _ALLOWED or (name.startswith('__') and name.endswith('__')):
             return object.__getattribute__(self, name)
+        if not hasattr(str, name):
+            raise AttributeError("'str' object has no attribute %r" % name)      # as a real str would
         raise Unsupported('SymStr.' + name)
 
     # ---- str methods (also used for concrete receivers with symbolic arguments via sym_method)
